@@ -593,6 +593,23 @@ pub fn soak_scenario(spec: &SoloSpec, seed: u64, k: u64) -> Scenario {
     if k % 2 == 0 {
         config = Config::default_for(config.protocol);
     }
+    if k % 8 == 3 {
+        // marathon: one large pickle, then more than two thousand small ones on the same generator
+        // without explicit resets (periodic housekeeping - buffer trimming every 2^10 calls, counters
+        // that wrap - only shows after thousands of calls and only when sizes differ a lot)
+        let mut config = Config::default_for(config.protocol);
+        config.min_opcodes = 3_000;
+        config.max_opcodes = 4_000;
+        let calls = rng.random_range(2_100..2_400usize);
+        let mut history = Vec::with_capacity(calls + 4);
+        history.push(HOp::Gen(Entropy::Rand(rng.random::<u64>() >> 8)));
+        history.push(HOp::SetRange(10, 60));
+        for _ in 0..calls {
+            history.push(HOp::Gen(Entropy::Rand(rng.random::<u64>() >> 8)));
+        }
+        let faults = vec![desc::Fault { kind: "hist", at: calls, detail: format!("marathon: one 3000-4000 opcode pickle, then {} small generation calls on the same generator", calls) }];
+        return Scenario { config, hash_key: rng.random(), history, faults, steer: None };
+    }
     let calls = rng.random_range(120..400);
     let mut faults = vec![];
     let mut history = Vec::with_capacity(calls + 8);
@@ -621,7 +638,7 @@ pub fn soak_scenario(spec: &SoloSpec, seed: u64, k: u64) -> Scenario {
 /// seeded search: candidates are probed cheaply (800 opcodes) and ranked per dimension by what the
 /// reference machine R3 measures; the best ones are then run at scale.
 pub fn deep_count(spec: &SoloSpec, tier: Tier) -> u64 {
-    deep_base_count(spec, tier) + wide_count(spec, tier) + tail_variant_count(spec, tier) + sandwich_count(spec, tier) + edge_count(spec, tier)
+    deep_base_count(spec, tier) + wide_count(spec, tier) + tail_variant_count(spec, tier) + sandwich_count(spec, tier) + pairdeep_count(spec, tier) + edge_count(spec, tier)
 }
 
 /// boundary-directed runs (threshold runs, argument sweeps, table sweeps): see edge.rs
@@ -651,12 +668,56 @@ pub fn sandwich_count(spec: &SoloSpec, tier: Tier) -> u64 {
 }
 
 fn sandwich_scenario(seed: u64, k: u64) -> Scenario {
-    let pairs = pair_patterns(seed);
+    let pairs: Vec<&PairPattern> = pair_patterns(seed).iter().filter(|p| p.unfolded_log2 >= 6).collect();
     if pairs.is_empty() {
         return Scenario::solo(Config::default_for(0), Entropy::Rand(k));
     }
-    let pp = &pairs[((k / 64) as usize) % pairs.len()];
+    let pp = pairs[((k / 64) as usize) % pairs.len()];
     pp.scenario(60, Some((k % 64) as u8))
+}
+
+/// "nesting through opcode pairs": the pair patterns that nest one level per repetition (probe:
+/// nesting >= 8 after 10 repetitions - TUPLE1-like wrappers, dict keys after a MARK stack, list
+/// members, REDUCE / BUILD chains), one per constructor opcode in turn, repeated thousands of times
+/// (a compact steering recipe resolved in the executing process). Recursive drops, clones,
+/// comparisons or formatters over the nested object run out of stack here.
+pub fn pairdeep_count(spec: &SoloSpec, tier: Tier) -> u64 {
+    match (spec.prop, tier) {
+        ("C09", Tier::Quick) => 40,
+        ("C09", Tier::Thorough) => 160,
+        ("C14", _) | ("C15", _) | ("C16", _) | ("C08", _) => 0,
+        (_, Tier::Quick) => 2,
+        (_, Tier::Thorough) => 10,
+    }
+}
+
+fn pairdeep_scenario(seed: u64, tier: Tier, k: u64) -> Scenario {
+    let all = pair_patterns(seed);
+    // group by the structural opcodes of the pair (everything that is not a plain push), so that
+    // every way of nesting - tuple items, list members, dict keys, REDUCE / BUILD chains, persistent
+    // ids - gets its turn; single-constructor groups first, candidate order inside a group
+    const FILLERS: [&str; 6] = ["MARK", "NONE", "EMPTY_TUPLE", "EMPTY_LIST", "EMPTY_DICT", "GLOBAL"];
+    let mut groups: Vec<(Vec<&'static str>, Vec<&PairPattern>)> = vec![];
+    for pp in all.iter().filter(|p| p.nesting >= 8) {
+        let mut key: Vec<&'static str> = [pp.a, pp.b].into_iter().filter(|o| !FILLERS.contains(o)).collect();
+        key.sort();
+        match groups.iter_mut().find(|g| g.0 == key) {
+            Some(g) => g.1.push(pp),
+            None => groups.push((key, vec![pp])),
+        }
+    }
+    groups.sort_by(|x, y| x.0.len().cmp(&y.0.len()).then(x.0.cmp(&y.0)));
+    if groups.is_empty() {
+        return Scenario::solo(Config::default_for(0), Entropy::Rand(k));
+    }
+    let g = &groups[(k as usize) % groups.len()];
+    let round = (k as usize) / groups.len();
+    let pp = g.1[round % g.1.len()];
+    let reps = match tier {
+        Tier::Quick => 6_000,
+        Tier::Thorough => [3_000usize, 6_000, 9_000, 14_000][round % 4],
+    };
+    pp.scenario_compact(reps)
 }
 
 /// "beyond 2^16" runs: the cheap extremal patterns (memo entries, open MARKs, nesting — their stack
@@ -672,7 +733,7 @@ pub fn wide_count(spec: &SoloSpec, tier: Tier) -> u64 {
     }
 }
 
-fn wide_scenario(spec: &SoloSpec, seed: u64, k: u64) -> Scenario {
+pub fn wide_scenario(spec: &SoloSpec, seed: u64, k: u64) -> Scenario {
     let pats = deep_patterns(seed);
     // (objective, protocol group) in turn; rank = k / 6
     let (obj, low) = [(3usize, true), (3, false), (2, true), (2, false), (0, true), (0, false)][(k % 6) as usize];
@@ -859,17 +920,51 @@ pub struct PairPattern {
 pub const PAIR_VOCAB: [&str; 22] = [
     "MARK", "NONE", "EMPTY_TUPLE", "EMPTY_LIST", "EMPTY_DICT", "DUP", "TUPLE", "TUPLE1", "TUPLE2", "TUPLE3", "LIST", "DICT", "APPEND", "SETITEM", "BINPUT", "BINGET", "MEMOIZE", "POP", "GLOBAL", "REDUCE", "BUILD", "BINPERSID",
 ];
-pub const PAIR_PREFIXES: [&[&str]; 4] = [&["NONE"], &["MARK", "NONE"], &["EMPTY_TUPLE"], &["MARK", "EMPTY_TUPLE"]];
+/// the last prefix stands for "as many MARKs as repetitions, plus 4" (a MARK for every DICT / LIST /
+/// TUPLE of the periodic phase to consume)
+pub const PAIR_PREFIXES: [&[&str]; 6] = [&["NONE"], &["MARK", "NONE"], &["EMPTY_TUPLE"], &["MARK", "EMPTY_TUPLE"], &["MARK*"], &["MARK*", "NONE"]];
 const PAIR_PROBE_REPS: usize = 10;
 
 impl PairPattern {
+    fn prefix_ops(&self, reps: usize) -> Vec<String> {
+        if self.prefix.first() == Some(&"MARK*") {
+            let mut v = vec!["MARK".to_string(); reps + 4];
+            v.extend(self.prefix[1..].iter().map(|s| s.to_string()));
+            v
+        } else {
+            self.prefix.iter().map(|s| s.to_string()).collect()
+        }
+    }
+    pub fn prefix_len(&self, reps: usize) -> usize {
+        self.prefix_ops(reps).len()
+    }
     pub fn program(&self, reps: usize) -> Vec<String> {
-        let mut v: Vec<String> = self.prefix.iter().map(|s| s.to_string()).collect();
+        let mut v: Vec<String> = self.prefix_ops(reps);
         for _ in 0..reps {
             v.push(self.a.to_string());
             v.push(self.b.to_string());
         }
         v
+    }
+    /// the same program as a compact recipe (run-length tokens), for thousands of repetitions
+    pub fn scenario_compact(&self, reps: usize) -> Scenario {
+        let mut ops: Vec<String> = if self.prefix.first() == Some(&"MARK*") {
+            let mut v = vec![format!("MARK*{}", reps + 4)];
+            v.extend(self.prefix[1..].iter().map(|s| s.to_string()));
+            v
+        } else {
+            self.prefix.iter().map(|s| s.to_string()).collect()
+        };
+        ops.push(format!("({} {})*{}", self.a, self.b, reps));
+        let n = self.prefix_len(reps) + 2 * reps;
+        let mut sc = Scenario::solo(tree_config(self.protocol, n), Entropy::Bytes(vec![]));
+        sc.steer = Some(desc::Steer { ops, tail: None });
+        sc.faults.push(desc::Fault {
+            kind: "steered",
+            at: 0,
+            detail: format!("prefix {:?} then ({} {}) x {} (probe: nesting {} after 10 repetitions)", self.prefix, self.a, self.b, reps, self.nesting),
+        });
+        sc
     }
     pub fn scenario(&self, reps: usize, tail: Option<u8>) -> Scenario {
         let ops = self.program(reps);
@@ -917,7 +1012,7 @@ fn probe_pair(p: u8, pi: usize, a: &'static str, b: &'static str) -> Option<Pair
     m.lenient_memo = true;
     let mut best = 0;
     // measured before the generator's own cleanup tail: header + prefix + 2*reps opcodes
-    let body = pp.prefix.len() + 2 * PAIR_PROBE_REPS;
+    let body = pp.prefix_len(PAIR_PROBE_REPS) + 2 * PAIR_PROBE_REPS;
     let header = ops.iter().take(2).filter(|o| o.name() == "PROTO" || o.name() == "FRAME").count();
     for (i, op) in ops.iter().enumerate() {
         if i >= header + body {
@@ -969,7 +1064,7 @@ pub fn pair_patterns(seed: u64) -> &'static Vec<PairPattern> {
                             let (p, pi, a, b) = cands[i];
                             pair_progress(i, true);
                             if let Some(pp) = probe_pair(p, pi, a, b) {
-                                if pp.unfolded_log2 >= 6 {
+                                if pp.unfolded_log2 >= 6 || pp.nesting >= 8 {
                                     out.push((i, pp));
                                 }
                             }
@@ -1293,8 +1388,12 @@ pub fn deep_scenario(spec: &SoloSpec, seed: u64, tier: Tier, k: u64) -> Scenario
     let wide = wide_count(spec, tier);
     let tails = tail_variant_count(spec, tier);
     let sandwich = sandwich_count(spec, tier);
-    if k >= base + wide + tails + sandwich {
-        let e = k - base - wide - tails - sandwich;
+    let pairdeep = pairdeep_count(spec, tier);
+    if k >= base + wide + tails + sandwich && k < base + wide + tails + sandwich + pairdeep {
+        return pairdeep_scenario(seed, tier, k - base - wide - tails - sandwich);
+    }
+    if k >= base + wide + tails + sandwich + pairdeep {
+        let e = k - base - wide - tails - sandwich - pairdeep;
         let thr = crate::edge::threshold_count(spec, tier);
         let args = crate::edge::argsweep_count(spec, tier);
         return if e < thr {
@@ -1543,6 +1642,14 @@ pub fn sweep_indices<F>(total: u64, wall_cap_s: f64, known: &[KnownFinding], sha
 where
     F: Fn(u64, &mut Stats) -> (Scenario, Vec<Violation>) + Sync,
 {
+    sweep_indices_from(0, total, wall_cap_s, known, shard, threads, on_begin_end, f)
+}
+
+/// the indices of [from, total) that belong to the shard
+pub fn sweep_indices_from<F>(from: u64, total: u64, wall_cap_s: f64, known: &[KnownFinding], shard: (u64, u64), threads: u64, on_begin_end: Option<&(dyn Fn(u64, bool) + Sync)>, f: F) -> SweepOutcome
+where
+    F: Fn(u64, &mut Stats) -> (Scenario, Vec<Violation>) + Sync,
+{
     let t0 = Instant::now();
     let nt = threads.max(1);
     let (shard_k, shard_n) = shard;
@@ -1561,7 +1668,8 @@ where
                         let mut stats = Stats::default();
                         let mut found = vec![];
                         // index i belongs to shard (i % shard_n), thread ((i / shard_n) % nt)
-                        let mut j = t;
+                        let j0 = if from > shard_k { (from - shard_k + shard_n - 1) / shard_n } else { 0 };
+                        let mut j = j0 + ((t + nt - j0 % nt) % nt);
                         loop {
                             let i = j * shard_n + shard_k;
                             if i >= total {
